@@ -895,6 +895,8 @@ def gen_seps(r, lines, p_ws, p_cmt_between=0.0, p_cmt_in=0.0, sections="hif"):
             if key == "f0" and k == -1:
                 continue      # nothing may precede the file's first terminal
             inside = (k >= 0 and k < len(toks) - 1 and key[0] != "f")
+            if inside and key[0] == "i" and k in (0, 1):
+                inside = False      # after the instance name and after '=': the record's head, where every reader skips comments
             pc = p_cmt_in if inside else p_cmt_between
             if pc and r.random() < pc:
                 seps["%s:%d" % (key, k)] = r.choice(SEP_COMMENT[r.choice(sorted(SEP_COMMENT))])
@@ -919,7 +921,8 @@ def sep_features(lines, seps):
         sect = {"f": "file", "h": "header", "i": "data"}[key[0]]
         kind = sep_kind(seps[sk])
         inside = prev != "bol" and nxt != "eol" and key[0] != "f"
-        coarse = ("cmt" if kind.startswith("cmt") else "ws") + ("-in-record" if inside else "-between-records")
+        head = inside and key[0] == "i" and k in (0, 1)       # after the instance name / after '='
+        coarse = ("cmt" if kind.startswith("cmt") else "ws") + ("-at-record-head" if head else ("-in-record" if inside else "-between-records"))
         for f in (coarse, coarse + ":" + sect, "sep:%s:%s~%s:%s" % (sect, prev, nxt, kind)):
             if f not in out:
                 out.append(f)
